@@ -8,7 +8,7 @@ _CG = {}
 
 
 def call_graph(prog):
-    if id(prog) in _CG: return _CG[id(prog)]
+    if hasattr(prog, '_callgraph'): return prog._callgraph
     eff = Effects(prog)
     g = {}
     for q, f in prog.funcs.items():
@@ -35,7 +35,7 @@ def call_graph(prog):
                     # property access on package classes
                     for q3 in eff.by_property.get(n.attr, []): out.add(q3)
         g[q] = out
-    _CG[id(prog)] = g
+    prog._callgraph = g
     return g
 
 
